@@ -116,6 +116,12 @@ CHECKS = {
              "rendered natively and as JSON, both are loaded into the real decoder, and TraceSyntax requires the absolute targets (address, scope, type, nesting), the origin addresses "
              "and the block / attribute outline of the two observations to be equal as bags and to equal TargetsP and the item tree of the abstract document.",
         ref="DESIGN.md 5/C19", technique="TLC-generated cases (MC_Targets) replayed in two concrete syntaxes + TLC trace validation against Targets.tla / the document tree (TraceSyntax)"),
+    "C08": dict(
+        text="ValComp.tla defines which declarations are visible from a cursor (block-local names only inside their block and only where enabled, never the attribute being edited), "
+             "RefCandOK (address of a visible declaration, typed prefix, fits by itself or through a nested declaration), FnCandOK and the admitted keyword / boolean sets; MC_ValComp "
+             "enumerates (constraint, typed text, placement), checks visibility invariants and prints the cases; TraceValComp judges every real candidate, and every accepted fitting "
+             "reference candidate must resolve through go-to-definition.",
+        ref="DESIGN.md 5/C08", technique="TLC model checking of ValComp.tla (MC_ValComp) + replay of TLC-generated cases + TLC trace validation of real candidates (TraceValComp)"),
 }
 
 NOT_YET = {
